@@ -7,6 +7,7 @@ as before.  Part 2 (below, per component class): the reducers of the modelled co
 rejection alone with the state unchanged.
 -/
 import Simaple.Proofs.Dispatch
+import Simaple.Proofs.Component
 
 namespace Simaple.Props.C07
 open Simaple.Dispatch
@@ -42,5 +43,113 @@ theorem dispatch_reject_alone (c : Comp ε) (hnd : (c.boundNames.map (·.1)).Nod
     exact ⟨tagEvents_single_reject c.name m r hr, setState_readback c hnd _ st hst⟩
 
 end
+
+/-! ## Part 2: the reducers of the modelled component classes reject alone and leave the state unchanged.
+For every parameter block, every state and every reducer of the class (player actions, and listened /
+triggered reducers such as `trigger` and the `ignore_rejected` wrappers): if the answer contains a
+rejection, the answer is exactly `[rejected]` and the returned state is the state given. -/
+section Classes
+open Simaple.Comp Simaple.Entity
+
+theorem buff_reject_alone (p : BuffSkill.P) (s : BuffSkill.S) (h : rejectedIn (BuffSkill.use p s).2 = true) :
+    BuffSkill.use p s = (s, [.rejected]) := by
+  unfold BuffSkill.use at h ⊢
+  split
+  · rfl
+  · rename_i hc; simp [hc, rejectedIn, REv.isReject] at h
+theorem buff_elapse_never_rejects (p : BuffSkill.P) (t : Int) (s : BuffSkill.S) :
+    rejectedIn (BuffSkill.elapse p t s).2 = false := by simp [BuffSkill.elapse, rejectedIn, REv.isReject]
+
+theorem attack_reject_alone (p : AttackSkill.P) (s : AttackSkill.S) (h : rejectedIn (AttackSkill.use p s).2 = true) :
+    AttackSkill.use p s = (s, [.rejected]) := by
+  unfold AttackSkill.use at h ⊢
+  split
+  · rfl
+  · rename_i hc; simp [hc, rejectedIn, REv.isReject] at h
+/-- the `ignore_rejected` wrapper never reports a rejection, and when the inner use rejected it changes nothing -/
+theorem attack_useIgnoreReject (p : AttackSkill.P) (s : AttackSkill.S) :
+    rejectedIn (AttackSkill.useIgnoreReject p s).2 = false ∧
+    (rejectedIn (AttackSkill.use p s).2 = true → AttackSkill.useIgnoreReject p s = (s, [])) := by
+  constructor
+  · simp [AttackSkill.useIgnoreReject, rejectedIn, List.any_filter]
+  · intro h
+    simp [AttackSkill.useIgnoreReject, attack_reject_alone p s h, REv.isReject]
+theorem attack_other_reducers_never_reject (p : AttackSkill.P) (t : Int) (s : AttackSkill.S) :
+    rejectedIn (AttackSkill.elapse p t s).2 = false ∧ rejectedIn (AttackSkill.resetCooldown p s).2 = false := by
+  simp [AttackSkill.elapse, AttackSkill.resetCooldown, rejectedIn, REv.isReject]
+
+/-- the repaired `DOTEmittingAttackSkillComponent.use`: no `add_dot` accompanies a rejection -/
+theorem dotAttack_reject_alone (p : DotAttack.P) (s : AttackSkill.S) (h : rejectedIn (DotAttack.use p s).2 = true) :
+    DotAttack.use p s = (s, [.rejected]) := by
+  unfold DotAttack.use at h ⊢
+  by_cases hr : rejectedIn (AttackSkill.use p.toP s).2 = true
+  · simp only [hr, if_true]; exact attack_reject_alone p.toP s hr
+  · simp only [hr] at h
+    simp only [Bool.not_eq_true] at hr
+    simp [rejectedIn, REv.isReject] at h hr
+    exact absurd h (by simpa using hr)
+
+theorem periodicAttack_reject_alone (p : PeriodicAttack.P) (s : PeriodicAttack.S) (r : PeriodicAttack.S × List REv)
+    (hr : PeriodicAttack.use p s = .ok r) (h : rejectedIn r.2 = true) : r = (s, [.rejected]) := by
+  unfold PeriodicAttack.use at hr
+  split at hr
+  · simp at hr; exact hr.symm
+  · cases hs : s.periodic.setTimeLeft p.lastingDuration with
+    | error e => simp [hs] at hr
+    | ok per => simp [hs] at hr; rw [← hr] at h; simp [rejectedIn, REv.isReject] at h
+theorem periodicAttack_elapse_never_rejects (p : PeriodicAttack.P) (t : Int) (s : PeriodicAttack.S) :
+    rejectedIn (PeriodicAttack.elapse p t s).2 = false := by
+  simp [PeriodicAttack.elapse, rejectedIn, REv.isReject, List.any_replicate]
+
+theorem programmed_reject_alone (p : Programmed.P) (s : Programmed.S) (h : rejectedIn (Programmed.use p s).2 = true) :
+    Programmed.use p s = (s, [.rejected]) := by
+  unfold Programmed.use at h ⊢
+  split
+  · rfl
+  · rename_i hc; simp [hc, rejectedIn, REv.isReject] at h
+theorem programmed_elapse_never_rejects (p : Programmed.P) (t : Int) (s : Programmed.S) :
+    rejectedIn (Programmed.elapse p t s).2 = false := by
+  simp [Programmed.elapse, rejectedIn, REv.isReject, List.any_replicate]
+
+theorem triggable_reject_alone (p : TriggableBuff.P) (s : TriggableBuff.S) (h : rejectedIn (TriggableBuff.use p s).2 = true) :
+    TriggableBuff.use p s = (s, [.rejected]) := by
+  unfold TriggableBuff.use at h ⊢
+  split
+  · rfl
+  · rename_i hc; simp [hc, rejectedIn, REv.isReject] at h
+/-- the listened `trigger` reducer never rejects: when it is not ready it answers nothing and changes nothing -/
+theorem triggable_trigger_never_rejects (p : TriggableBuff.P) (t : Int) (s : TriggableBuff.S) :
+    rejectedIn (TriggableBuff.trigger p s).2 = false ∧ rejectedIn (TriggableBuff.elapse p t s).2 = false := by
+  constructor
+  · unfold TriggableBuff.trigger; split <;> simp [rejectedIn, REv.isReject]
+  · simp [TriggableBuff.elapse, rejectedIn, REv.isReject]
+
+theorem keydown_use_reject_alone (p : KeydownSkill.P) (s : KeydownSkill.S) (h : rejectedIn (KeydownSkill.use p s).2 = true) :
+    KeydownSkill.use p s = (s, [.rejected]) := by
+  unfold KeydownSkill.use at h ⊢
+  split
+  · rfl
+  · rename_i hc; simp [hc, rejectedIn, REv.isReject] at h
+theorem keydown_stop_reject_alone (p : KeydownSkill.P) (s : KeydownSkill.S) (h : rejectedIn (KeydownSkill.stop p s).2 = true) :
+    KeydownSkill.stop p s = (s, [.rejected]) := by
+  unfold KeydownSkill.stop at h ⊢
+  split
+  · rfl
+  · rename_i hc; simp [hc, rejectedIn, REv.isReject] at h
+theorem keydown_elapse_never_rejects (p : KeydownSkill.P) (t : Int) (s : KeydownSkill.S) :
+    rejectedIn (KeydownSkill.elapse p t s).2 = false := by
+  unfold KeydownSkill.elapse
+  simp only
+  split <;> simp [rejectedIn, REv.isReject, List.any_replicate]
+
+/-- the unrepaired `DOTEmittingAttackSkillComponent.use` (append `add_dot` unconditionally) violates the
+    property: witness of defect F8a -/
+theorem dotAttack_unrepaired_refuted :
+    ∃ (p : DotAttack.P) (s : AttackSkill.S),
+      let r := AttackSkill.use p.toP s
+      rejectedIn (r.2 ++ [REv.addDot p.dotDamage p.dotLasting]) = true ∧ (r.2 ++ [REv.addDot p.dotDamage p.dotLasting]).length = 2 :=
+  ⟨⟨⟨1000, 0, 1, 1, false⟩, 1, 1000⟩, ⟨⟨500⟩⟩, by decide⟩
+
+end Classes
 
 end Simaple.Props.C07
